@@ -74,7 +74,7 @@ def specs(draw, tier):
     if cls != "SphericalDroplet":
         cand["interface_width"] = draw(st.sampled_from([None, 0.0, gen.r6(w), gen.r6(0.5 * w), gen.r6(2 * w)]))
     if cls.startswith("Perturbed"):
-        nmodes = draw(st.integers(1, 6)) if cls != "PerturbedDroplet3DAxisSym" else draw(st.integers(1, 3))
+        nmodes = draw(st.integers(0, 6)) if cls != "PerturbedDroplet3DAxisSym" else draw(st.integers(0, 3))  # 0 = the documented default (no amplitudes)
         cand["amplitudes"] = [gen.r6(draw(st.floats(-0.1, 0.1, **finite))) if draw(st.booleans()) else 0.0 for _ in range(nmodes)]
     if kind == "self":
         cand["position"] = list(spec["truth"]["position"])
@@ -85,6 +85,8 @@ def specs(draw, tier):
     spec["opts"] = {"levels": draw(st.sampled_from(["fixed", "fixed", "auto", "adjust", "auto+adjust"])), "tolerance": draw(st.sampled_from([None, None, 1e-4, 1e-10]))}
     # documented pass-through of solver options; a small evaluation budget makes the fit stop before it has converged
     spec["opts"]["max_nfev"] = draw(st.sampled_from([None, None, None, None, 1, 2, 3, 5, 8]))
+    # the image may arrive in another numeric representation: single precision, 8-bit grey levels stored as integers, a boolean image
+    spec["image"]["dtype"] = draw(st.sampled_from(["float64"] * 5 + ["float32", "grey-int", "bool"]))
     return spec
 
 
@@ -107,12 +109,14 @@ def mk(d):
     import droplets.droplets as D
 
     cls = getattr(D, d["cls"])
-    pos = np.array(d["position"], float)
+    pos, rad = gen.as_given(d["position"], d["radius"], d)
     if d["cls"] == "SphericalDroplet":
-        return cls(pos, d["radius"])
+        return cls(pos, rad)
     if "amplitudes" in d:
-        return cls(pos, d["radius"], d.get("interface_width"), np.array(d["amplitudes"], float))
-    return cls(pos, d["radius"], d.get("interface_width"))
+        if len(d["amplitudes"]) == 0:
+            return cls(pos, rad, d.get("interface_width"))  # amplitudes left at their default (None): a perturbed droplet without modes
+        return cls(pos, rad, d.get("interface_width"), np.array(d["amplitudes"], float))
+    return cls(pos, rad, d.get("interface_width"))
 
 
 class _Proxy:
@@ -189,7 +193,21 @@ class C04(Property):
         elif kind == "smooth":
             idx = np.stack(np.meshgrid(*[np.arange(n) for n in data.shape], indexing="ij"), -1)
             data = vmin + (vmax - vmin) * (0.5 + 0.5 * np.cos((idx * rng.uniform(0.1, 0.9, idx.shape[-1])).sum(-1) + rng.uniform(0, 6)))
-        field = ScalarField(grid, data)
+        img_dt = im.get("dtype", "float64")
+        if img_dt == "float32":
+            field = ScalarField(grid, data.astype(np.float32), dtype=np.float32)
+        elif img_dt == "grey-int":  # grey levels 0..255 between the two intensity levels, stored as integers
+            grey = np.clip(np.round(255 * (data - min(vmin, vmax)) / abs(vmax - vmin)), 0, 255).astype(int)
+            field = ScalarField(grid, grey, dtype=int)
+            vmin, vmax = (0.0, 255.0) if vmax > vmin else (255.0, 0.0)
+        elif img_dt == "bool":
+            field = ScalarField(grid, data > 0.5 * (vmin + vmax), dtype=bool)
+            vmin, vmax = (0.0, 1.0) if vmax > vmin else (1.0, 0.0)
+        else:
+            field = ScalarField(grid, data)
+        if img_dt != "float64":
+            ctx.cls(f"image-dtype:{img_dt}")
+            data = np.array(field.data, float)  # what the oracles compare with: the values the field actually holds
         snap = field.data.tobytes()
         mode = spec["opts"]["levels"]
         kw = {}
@@ -277,7 +295,7 @@ class C04(Property):
             ctx.require(abs(0.5 * d_c - rec["cost0"]) <= 1e-9 * max(d_c, 1e-300) + 1e-300, "fit-region-or-model-differs", f"independently computed initial deviation {0.5 * d_c} vs the optimiser's initial cost {rec['cost0']}")
         # --- fixed point ------------------------------------------------------------------------
         explicit_width = isinstance(cand0, DiffuseDroplet) and cand0.interface_width is not None and cand0.interface_width >= 0
-        if kind == "self" and mode == "fixed" and explicit_width and not sharp_knife_edge:
+        if kind == "self" and mode == "fixed" and explicit_width and not sharp_knife_edge and img_dt == "float64":
             ctx.cls("fixed-point" + (":sharp" if cand0.interface_width == 0 else ""))
             ref = cand0
             # a sharp candidate (width 0) sits on the lower bound of the width: the deviation is measured relative to a cell
@@ -289,7 +307,7 @@ class C04(Property):
                 dpos = np.abs(np.asarray(res.position, float) - np.asarray(ref.position, float))
                 dmax = float(np.max(grid.discretization))
             err = max(float(dpos.max()) / dmax, abs(res.radius - ref.radius) / ref.radius, abs(res.interface_width - ref.interface_width) / w_ref)
-            if hasattr(res, "amplitudes"):
+            if hasattr(res, "amplitudes") and len(ref.amplitudes):
                 err = max(err, float(np.abs(res.amplitudes - ref.amplitudes).max()))
             ctx.require(err <= 1e-6, f"fixed-point-moved:{fam}", f"image rendered from the candidate itself, yet the result differs by {err} (relative)")
 
